@@ -219,7 +219,7 @@ def one_step(ch, mgr, w, g, op: str, tag: str, strong_lock: bool, preempt: bool 
     keys = sorted(g.shmid.keys())  # keys ever known, incl. purged ones
     fs0 = mgr.free_space
     if op == "add":
-        key = ch.choose(keys + ["knew"], f"{tag}key")
+        key = ch.choose(keys + [f"knew{tag}"], f"{tag}key")
         size = ch.int(f"{tag}size", 1, None)
         existed = key in mgr.datasets
         shmid, err = mgr.add(key, size, "dnew")
@@ -248,6 +248,7 @@ def one_step(ch, mgr, w, g, op: str, tag: str, strong_lock: bool, preempt: bool 
             g.shmid[key] = shmid
             g.size[key] = size
             g.content.pop(key, None)
+            g.noseg.add(key)  # the writer has been granted the allocation but has not created its segment yet
         ch.note("op", f"add({key})->{err or 'granted'}")
     elif op == "close":
         key = ch.choose(keys + ["knew"], f"{tag}key")
@@ -431,6 +432,10 @@ class ShmStep(Harness):
                     if op == "rjob" and 4 not in sts:
                         continue
                     out.append({"statuses": list(sts), "ops": [op]})
+        if not self.preempt:
+            # two allocations in a row: what one creates must not be shared with what the next one creates
+            out.append({"statuses": [], "ops": ["add", "add"]})
+            out.append({"statuses": [1], "ops": ["add", "add"]})
         if tier == "thorough" and self.steps_thorough > 1:
             for k in range(0, min(n, 2) + 1):
                 for sts in itertools.product(range(5), repeat=k):
@@ -511,8 +516,9 @@ class ShmLiveness(Harness):
         return {"datasets": 2 if tier == "quick" else 3, "retries": self.RETRIES, "integers": "unbounded"}
 
     def functions(self):
-        return [dataset.Manager.add, dataset.Manager.page_out_at_least, dataset.Manager.page_out, dataset.Manager.close_callback,
-                dataset.Dataset.is_pageoutable, algorithms.lottery, disk.Disk._page_out]
+        # only what this harness drives must exist: add, close_callback and the disk jobs; the rest is listed when present
+        return [dataset.Manager.add, dataset.Manager.close_callback, dataset.Dataset.is_pageoutable, algorithms.lottery, disk.Disk._page_out] + [
+            getattr(dataset.Manager, n) for n in ("page_out_at_least", "page_out") if hasattr(dataset.Manager, n)]
 
     def body(self, ch, params):
         statuses = [STATUSES[i] for i in params["statuses"]]
